@@ -25,6 +25,7 @@ ASSUMPTIONS = [
     "units with the same initial short address and fault flags are interchangeable (bus merge rule is symmetric), so populations are enumerated as multisets",
     "a failure raised as ProgramShortAddressFailure ends the run; the statement does not require TERMINATE on that path",
 ]
+SANITY = ["runs_with_clash_round", "runs_with_withdraw"]
 BOUNDS = {"quick": "slice A: n<=3, |A|=4, R=2; slice B: n<=3; faults on n<=2",
           "thorough": "slice A: n<=3 with |A|=6, R=3 and n=4 with |A|=4, R=2; slice B: n<=4; faults on n<=3"}
 
@@ -82,6 +83,10 @@ def judge(res, cfg, units0, units, kind, val, n, bus, key_extra=""):
     pre, avail, readdress, dry_run, faults = cfg["pre"], cfg["avail"], cfg["readdress"], cfg["dry_run"], cfg.get("faults", [])
     case = dict(cfg, history=bus.history, t="run")
     nunits = len(units)
+    if bus.round >= 2:
+        observe(res, "runs_with_clash_round")
+    if any(u.init_state == G.WITHDRAWN for u in units) or any(d[1] == "Withdraw" for d, a in bus.log):
+        observe(res, "runs_with_withdraw")
     bound = 80 + max(1, bus.round) * (nunits + 1) * (25 * 8 + 15)   # <= 2 probes x 4 commands per search level
     tag = ("readdress" if readdress else "new") + ("-dry" if dry_run else "")
     if kind == "cap" or n > bound:
